@@ -29,6 +29,27 @@ class SchedError(Exception):
     pass
 
 
+_ACTIVE = [None]      # the scheduler currently running (one at a time per process)
+
+
+class no_preempt:
+    """Harness-side critical section: while held, traced lines are not pre-emption points.
+    Used around set-up steps that are not part of the behaviour under test (registering the
+    run's own route on a shared application).  A no-op when no scheduler is running."""
+
+    def __enter__(self):
+        s = _ACTIVE[0]
+        if s is not None:
+            s.hold += 1
+        return self
+
+    def __exit__(self, *exc):
+        s = _ACTIVE[0]
+        if s is not None:
+            s.hold -= 1
+        return False
+
+
 class Sched:
     def __init__(self, n, plan, *, prefixes, granularity='line', max_steps=400000):
         self.n = n
@@ -49,6 +70,7 @@ class Sched:
         self._traced = {}
         self.on_switch = None               # callback(frm, to) -> None, harness-side accounting
         self.steps_per_thread = [0] * n
+        self.hold = 0
         mode = plan['mode']
         self.mode = mode
         if mode == 'explicit':
@@ -129,6 +151,8 @@ class Sched:
 
     # ---- pre-emption point ------------------------------------------------------------------
     def _point(self, tid, frame):
+        if self.hold:
+            return
         self.step += 1
         nxt = self._next
         if nxt < 0 or self.step < nxt:
@@ -206,9 +230,13 @@ class Sched:
             t.start()
         first = self.first if 0 <= self.first < self.n else 0
         self.cur = first
-        self.sems[first].release()
-        if not self.done_sem.acquire(timeout=timeout):
-            raise SchedError(f'scheduled run did not finish within {timeout}s (step {self.step}, states {self.state})')
+        _ACTIVE[0] = self
+        try:
+            self.sems[first].release()
+            if not self.done_sem.acquire(timeout=timeout):
+                raise SchedError(f'scheduled run did not finish within {timeout}s (step {self.step}, states {self.state})')
+        finally:
+            _ACTIVE[0] = None
         for t in threads:
             t.join(timeout=5)
         return self
